@@ -29,7 +29,8 @@ ASSUMPTIONS = ["a scrubbed deep copy (results reset, all _-prefixed internal sta
                "converge counts only when the previous converged result is <= 2 switching/small-setpoint edits old",
                "recycle= is never passed (its contract is reuse; decided under C12)"]
 REACH_PROBES = ["probe_after_failed_calc", "probe_after_interrupted_calc", "probe_with_nan_rows_in_previous_result",
-                "probe_after_other_mode_calc", "probe_init_results", "probe_after_structural_edit"]
+                "probe_after_other_mode_calc", "probe_init_results", "probe_after_structural_edit",
+                "element_table_rows_reordered"]
 
 TEMPLATE_W = [("case9", 5), ("feeder", 4), ("feeder_dcline", 3), ("case9_dcline", 2), ("feeder_taptable", 2),
               ("four_bus", 2), ("cigre_mv", 2), ("case14", 2), ("ph3", 2), ("feeder_t3w", 1), ("case5", 1)]
@@ -61,6 +62,10 @@ def gen_probe(rng):
             kw["init_va_degree"] = "results"
         elif r < 0.65:
             kw["init"] = rng.choice(["flat", "dc"])
+        elif r < 0.72:
+            # explicit start vector forms (scalar / "flat" / "dc" for the angles)
+            kw["init_vm_pu"] = rng.choice([1.0, 1.02, "flat"])
+            kw["init_va_degree"] = rng.choice(["dc", "flat", 0.0])
         if rng.random() < 0.25:
             kw["algorithm"] = rng.choice(["iwamoto_nr", "bfsw", "fdbx"])
         if rng.random() < 0.2:
@@ -92,7 +97,12 @@ def generate(rng, idx, tier):
     for _ in range(cfg["n_ops"]):
         f = c08._wchoice(rng, fam)
         if f == "edit":
-            ol.append(ops.gen_set(rng))
+            if rng.random() < 0.08:
+                # the rows of an element table in another order (same labels): positions must never stand for labels
+                ol.append({"op": "reorder", "table": rng.choice(["bus", "bus", "line", "load", "gen", "trafo"]),
+                           "how": rng.choice(["reverse", "sort"])})
+            else:
+                ol.append(ops.gen_set(rng))
         elif f == "switch":
             ol.append(ops.gen_toggle(rng, SWITCHY))
             if rng.random() < 0.35:     # bias: switching lands right before a probe
@@ -207,6 +217,17 @@ def execute(ep, ctx):
                         h.nearby = False
                 elif k == "toggle":
                     h.last_feature = "switching"
+        elif k == "reorder":
+            t = op["table"]
+            if t in net and len(net[t]) > 1:
+                net[t] = net[t].iloc[::-1] if op["how"] == "reverse" else net[t].sort_index()
+                ctx.probe("element_table_rows_reordered")
+                h.since_probe.append("reorder")
+                h.nearby = False
+                h.last_feature = "reindex/drop"
+                if h.conv_age is not None:
+                    h.conv_age += 1
+            ctx.event("reorder", t, op["how"])
         elif k == "drop":
             _exec_drop(net, op, ctx, h)
         elif k == "calc":
